@@ -12,6 +12,7 @@
   orders (`σ`, `Upd.σ1`, `Upd.σ2`) are arbitrary.
 -/
 import HL.Lemmas.Run
+import HL.Lemmas.Formats
 namespace HL.Props.C12
 open HL.Index HL.Workspace HL.Spec.Rebuild
 open HL.Lemmas.Index HL.Lemmas.WsInv HL.Lemmas.Update HL.Lemmas.Init HL.Lemmas.View HL.Lemmas.Run
@@ -94,10 +95,11 @@ theorem rebuild_satisfies_spec (cfg : Cfg) (σ : List String) (fs : FS)
   rw [i2] at this
   exact this
 
-/-- `refresh_fuel_suffices`: the loop of `refreshIncludeTreeLocked` reaches its fixpoint within
-    `len(directory) + 2` rounds (the fuel of `refreshIncludeTree`): in every reachable state an
-    `UpdateFile` ends with the index closed under reachability, which is what the loop's exit
-    condition establishes. -/
+/-- The loop of `refreshIncludeTreeLocked` reaches its fixpoint within `len(directory) + 2`
+    rounds (the fuel of `refreshIncludeTree`; HL.Lemmas.Refresh.refresh_ok): in every
+    reachable state a single `UpdateFile` call — here the didChange call, made while the disk
+    still has the old text — ends with the index closed under reachability, which is what the
+    loop's exit condition establishes. -/
 theorem update_closes (cfg : Cfg) (σ : List String) (fs : FS) (us : List Upd) (u : Upd)
     (h : Setting cfg fs (us ++ [u])) (p : String) :
     let s := run cfg σ fs us
@@ -118,5 +120,141 @@ theorem update_closes (cfg : Cfg) (σ : List String) (fs : FS) (us : List Upd) (
     (fun y hy => HL.Lemmas.AList.get_set_ne _ _ _ _ (Ne.symm hy))
     (fun y hy => (HL.Lemmas.AList.get_set_ne _ _ _ _ (Ne.symm hy)).symm)
   exact hw.closed p
+
+/-! ### commodity formats (known finding `formats-order`) -/
+
+/-- `C12_formats_partial`: if no two member files other than the root declare different
+    formats for one commodity (`formatConflict = false` on the final contents), the
+    commodity formats after any history are those of a rebuild. -/
+theorem C12_formats_partial (cfg : Cfg) (σ : List String) (fs : FS) (us : List Upd)
+    (h : Setting cfg fs us) (hlim : (finalFs fs us).length ≤ cfg.limit)
+    (hno : formatConflict (finalFs fs us) (rootSel fs) = false) :
+    formatsOk (rebuildAt cfg.limit (rootSel fs) (finalFs fs us))
+      (observe (run cfg σ fs us).w).1 = true := by
+  obtain ⟨h1, _, h3, _⟩ := run_ok cfg σ fs us h.ok h.nonempty h.clean h.limit h.upds
+  have := HL.Lemmas.Formats.formats_ok cfg (finalFs fs us) (run cfg σ fs us).w h1 hlim (h3 ▸ hno)
+  rw [h3] at this
+  exact this
+
+/-- the formats of a fresh workspace are those of the specification (no guard needed: the
+    specification follows the loader's file order). -/
+theorem rebuild_formats (cfg : Cfg) (σ : List String) (fs : FS) (h : Setting cfg fs [])
+    (hno : formatConflict fs (rootSel fs) = false) :
+    formatsOk (rebuildAt cfg.limit (rootSel fs) fs) (observe (init cfg σ fs)).1 = true := by
+  obtain ⟨i1, i2, _⟩ := init_ok cfg σ fs h.ok h.nonempty h.clean h.limit
+  have := HL.Lemmas.Formats.formats_ok cfg fs (init cfg σ fs) i1 h.limit (i2 ▸ hno)
+  rw [i2] at this
+  exact this
+
+def eur (f : String) : Contrib := { cds := [{ sym := "EUR", raw := f, fmt := f }] }
+
+/-- main includes b and c, which declare different formats for EUR. -/
+def fsF : FS :=
+  [("main.journal", { incs := ["b.journal", "c.journal"] }),
+   ("b.journal", eur "1.000,00 EUR"), ("c.journal", eur "1,000.00 EUR")]
+
+/-- main drops the include of b, then adds it back. -/
+def usF : List Upd :=
+  [{ path := "main.journal", c := { incs := ["c.journal"] } },
+   { path := "main.journal", c := { incs := ["b.journal", "c.journal"] } }]
+
+/-- `formats_order_counterexample` (pinned and repaired code alike): after b became
+    unreachable and reachable again it sits at the end of `resolved.FileOrder`, its format
+    now wins, while a rebuild (depth-first include order) lets c's win.  The final contents
+    equal the initial ones. -/
+theorem formats_order_counterexample :
+    finalFs fsF usF = fsF ∧
+    (observe (run { fixT := true, fixG := true } [] fsF usF).w).1.formats = some [("EUR", "1.000,00 EUR")] ∧
+    (observe (init { fixT := true, fixG := true } [] (finalFs fsF usF))).1.formats = some [("EUR", "1,000.00 EUR")] ∧
+    formatsOk (rebuildAt 50 "main.journal" (finalFs fsF usF))
+      (observe (run { fixT := true, fixG := true } [] fsF usF).w).1 = false ∧
+    formatConflict (finalFs fsF usF) "main.journal" = true := by decide
+
+/-- the hypotheses of `C12_formats_partial` are satisfiable on a non-trivial history. -/
+example : Setting {} fsF [{ path := "b.journal", c := eur "1,000.00 EUR" }] ∧
+    formatConflict (finalFs fsF [{ path := "b.journal", c := eur "1,000.00 EUR" }]) (rootSel fsF) = false :=
+  ⟨⟨by decide, by decide, by decide, by unfold graphsClean; decide, by decide⟩, by decide⟩
+
+/-! ### payee templates of the pinned code (known finding `template-loss`) -/
+
+def shop : Contrib := { pc := [("Shop", 1)], pts := [("Shop", "T")] }
+
+/-- main includes a and b, both have a transaction of payee Shop. -/
+def fsT : FS :=
+  [("main.journal", { incs := ["a.journal", "b.journal"] }), ("a.journal", shop), ("b.journal", shop)]
+
+/-- b loses its transaction. -/
+def usT : List Upd := [{ path := "b.journal", c := {} }]
+
+/-- `template_loss_counterexample` (index.go as pinned): two files share a payee, one drops
+    it, the payee's template vanishes from the workspace although a still has it; a rebuild
+    keeps it.  Everything else still agrees (`C12_view_eq_rebuild`). -/
+theorem template_loss_counterexample :
+    (run {} [] fsT usT).w.idx.pts.get "Shop" = none ∧
+    (init {} [] (finalFs fsT usT)).idx.pts.get "Shop" = some "T" ∧
+    ptOk (rebuildAt 50 "main.journal" (finalFs fsT usT)) (observe (run {} [] fsT usT).w).1 = false := by
+  decide
+
+/-- the repaired code (fix-template-loss.diff) keeps the template on the same history. -/
+example : (run { fixT := true } [] fsT usT).w.idx.pts.get "Shop" = some "T" := by decide
+
+/-! ### stale include graph of the pinned code (known finding `stale-include-graph`) -/
+
+/-- no main.journal: the root is chosen by include graph (a.journal); b includes c, and
+    neither is a member. -/
+def fsG : FS := [("a.journal", {}), ("b.journal", { incs := ["c.journal"] }), ("c.journal", shop)]
+
+/-- c is saved unchanged. -/
+def usG : List Upd := [{ path := "c.journal", c := shop }]
+
+/-- `stale_include_graph_counterexample` (workspace.go as pinned): `findRootByIncludeGraph`
+    leaves the edge b→c in the reverse graph, so `isWorkspaceFileLocked(c)` accepts the update
+    of c, which is indexed although unreachable from the root; its include list did not
+    change, so the tree is not refreshed.  A rebuild has only a. -/
+theorem stale_include_graph_counterexample :
+    rootSel fsG = "a.journal" ∧
+    (observe (run {} [] fsG usG).w).1.members = ["a.journal", "c.journal"] ∧
+    (observe (init {} [] (finalFs fsG usG))).1.members = ["a.journal"] ∧
+    membersOk (rebuildAt 50 "a.journal" (finalFs fsG usG)) (observe (run {} [] fsG usG).w).1 = false := by
+  decide
+
+/-- the repaired code (fix-stale-include-graph.diff) ignores the update. -/
+example : (observe (run { fixG := true } [] fsG usG).w).1.members = ["a.journal"] := by decide
+
+/-- `Setting` holds for this directory under the repaired code, not under the pinned code:
+    the hypothesis `graphsClean` is exactly what the finding violates. -/
+example : Setting { fixG := true } fsG usG :=
+  ⟨by decide, by decide, by decide, by unfold graphsClean; decide, by decide⟩
+
+/-! ### the root is not re-selected (known finding `root-not-reselected`) -/
+
+/-- a includes b; no main.journal: the root is a. -/
+def fsR : FS := [("a.journal", { incs := ["b.journal"], pc := [("Shop", 1)] }), ("b.journal", {})]
+
+/-- a drops the include, then b includes a. -/
+def usR : List Upd :=
+  [{ path := "a.journal", c := { pc := [("Shop", 1)] } },
+   { path := "b.journal", c := { incs := ["a.journal"] } }]
+
+/-- `root_not_reselected_counterexample`: a fresh workspace on the final contents selects b as
+    its root and has both files; the running workspace keeps the root a and has only a.
+    (Outside the hypothesis `rootSel (finalFs fs us) = rootSel fs` under which
+    `C12_view_eq_rebuild` and `rebuild_satisfies_spec` speak of the same root.) -/
+theorem root_not_reselected_counterexample :
+    rootSel fsR = "a.journal" ∧ rootSel (finalFs fsR usR) = "b.journal" ∧
+    (observe (run { fixT := true, fixG := true } [] fsR usR).w).1.members = ["a.journal"] ∧
+    (observe (init { fixT := true, fixG := true } [] (finalFs fsR usR))).1.members =
+      ["a.journal", "b.journal"] := by decide
+
+/-! ### non-vacuity of the main theorems -/
+
+/-- a history with content edits, a file becoming unreachable and reachable again, and an
+    include target created later satisfies `Setting` (for the pinned code, root chosen by
+    name). -/
+example : Setting {} fsT
+    [{ path := "main.journal", c := { incs := ["a.journal", "x.journal"] } },
+     { path := "x.journal", c := shop },
+     { path := "main.journal", c := { incs := ["b.journal", "a.journal", "x.journal"] } }] :=
+  ⟨by decide, by decide, by decide, by unfold graphsClean; decide, by decide⟩
 
 end HL.Props.C12
